@@ -1294,7 +1294,7 @@ def oracle_ct(case: dict, raw):
                 sig += f"[{head}]:missing={','.join(missing)}:unexpected={','.join(unexpected)}"
             except Exception:
                 sig += f"[{head}]:" + _slug(str(raw))
-        elif _ill_typed(head, dpy):
+        elif isinstance(raw, (TypeError, AttributeError)) and _ill_typed(head, dpy):
             sig = f"total:ill-typed-default:{type(raw).__name__}@{site}"
         else:
             sig += ":" + _slug(str(raw))
